@@ -22,7 +22,7 @@ from instances import D, O, S, TH, eff, red  # noqa: E402
 
 INVARIANTS = ["C01_Fold", "C01_ExactlyOnce", "C01_Threaded", "C02_Order", "C02_ReduceOrder", "C03_OnlyDispatch",
               "C03_StateAndOrder", "C03_Stream", "C04_Barrier", "C04_ErrNeverReduced", "C05_Bound", "C05_NoLoss",
-              "C06_NeverBlocks", "C06_Conservation", "C06_ErrIffDropped", "C06_Exact", "C07_ReducerContext",
+              "C06_NeverBlocks", "C06_RetryFindsRoom", "C06_Conservation", "C06_ErrIffDropped", "C06_Exact", "C07_ReducerContext",
               "C07_DirectOnReducer", "C07_Registered", "C08_Published", "C08_Valid", "C09_Notified", "C09_SilentAfter",
               "C09_ReleasedAtMostOnce", "C09_Released", "C10_OwnThread", "C10_Stream", "C10_Flush", "C10_NoStall",
               "C11_AtMostOnce", "C11_Once", "C11_Once_strict", "C11_Worker", "C11_Followup", "C12_Veto", "C12_Suppress",
